@@ -265,7 +265,7 @@ class InterleaveSpace(Space):
         self.tier = tier
         self.pairs = PAIRS_Q if tier == "quick" else PAIRS_T
         self.bound = 1 if tier == "quick" else 2
-        self.cap = 6000 if tier == "quick" else 60000
+        self.cap = 6000 if tier == "quick" else 15000
         self.name = "interleave_2threads_le%d_preemptions" % self.bound
         self.size = len(self.pairs)
         self.grain = 1
